@@ -224,6 +224,13 @@ func isolationMain(args []string) error {
 		wg.Add(1)
 		go func() {
 			defer wg.Done()
+			defer func() {
+				if p := recover(); p != nil {
+					mu.Lock()
+					failures = append(failures, fmt.Sprintf("panic in a goroutine that only parses, resolves symbols and classifies errors: %v", p))
+					mu.Unlock()
+				}
+			}()
 			for i := 0; ; i++ {
 				select {
 				case <-stop:
@@ -264,13 +271,21 @@ func isolationMain(args []string) error {
 				}()
 				// the empty filter is a query like any other: every Parse gives the caller a value of its own -- one caller paging
 				// it must not change what another caller's unpaged query returns
-				if eq, err := ast.Parse(env.S.People, ""); err == nil {
+				if eq, err := func() (q ast.Query, err error) {
+					defer func() {
+						if p := recover(); p != nil {
+							err = fmt.Errorf("panic: %v", p)
+						}
+					}()
+					return ast.Parse(env.S.People, "")
+				}(); err == nil {
 					pager := (i+h)%2 == 0
 					if pager {
 						eq.SetSkip(0)
 						eq.SetLimit(1)
 					}
-					_ = env.Db.View(func(tx *bbolt.Tx) error {
+					_ = env.Db.View(func(tx *bbolt.Tx) (e error) {
+						defer func() { _ = recover() }()
 						ids, n, err := env.S.People.QueryIdsC(tx, eq)
 						if err == nil && !pager && int64(len(ids)) != n {
 							mu.Lock()
@@ -287,7 +302,14 @@ func isolationMain(args []string) error {
 				}
 				// elements of a nested map, a different one per goroutine: the symbols are resolved per query and share nothing
 				lq := []string{`labels.a.v = "A"`, `labels.b.v = "B"`}[h%2]
-				_ = env.Db.View(func(tx *bbolt.Tx) error {
+				_ = env.Db.View(func(tx *bbolt.Tx) (e error) {
+					defer func() {
+						if p := recover(); p != nil {
+							mu.Lock()
+							failures = append(failures, fmt.Sprintf("panic in a concurrent query (%s): %v", lq, p))
+							mu.Unlock()
+						}
+					}()
 					ids, _, err := env.S.People.QueryIds(tx, lq)
 					if err != nil || len(ids) != 1 || ids[0] != "p1" {
 						mu.Lock()
